@@ -48,6 +48,13 @@ def parseNChecks : Nat → List String → Option (List (Check NumChecks.NPred U
     let d ← Gozod.Drv.C16.parseNum k v
     let (cs, r) ← parseNChecks n r
     pure (.pred (.mult d) false none :: cs, r)
+  | n + 1, "mulf" :: v :: r => do
+    let b ← v.toNat?
+    let (cs, r) ← parseNChecks n r
+    pure (.pred (.multF (F.ofBits b)) false none :: cs, r)
+  | n + 1, "isint" :: r => do
+    let (cs, r) ← parseNChecks n r
+    pure (.pred .isInt false none :: cs, r)
   | n + 1, "finite" :: r => do
     let (cs, r) ← parseNChecks n r
     pure (.pred .finite false none :: cs, r)
